@@ -337,19 +337,6 @@ theorem fold_refd_subset (st st' : St) (l : List Anchor)
         · exact Or.inl h1
       · exact Or.inr ⟨k, List.mem_cons_of_mem _ hk, hk2⟩
 
-/-- The step does not overwrite an existing container with a new anchor's ACL (true for every
-successful raw step; for an IPv6 file it is the hypothesis that excludes F-C18g). -/
-def stepSafe (st : St) (k : Anchor) : Bool :=
-  (orig.find? (fun ka => ka.key == k.key)).isSome || !st.conts.has k.acl
-
-/-- Every step of the run is safe (decidable on every concrete input). -/
-def safeRun : St → List Anchor → Bool
-  | _, [] => true
-  | st, k :: ks => stepSafe orig st k &&
-      match ciscoStep dev g isRaw orig bt st k with
-      | .ok st' => safeRun st' ks
-      | .error _ => true
-
 /-- Containers only gain entries and anchors are only added. -/
 def Grow (st st' : St) : Prop :=
   (∀ n e, e ∈ linesOf st.conts n → e ∈ linesOf st'.conts n) ∧ (∀ k ∈ st.anchors, k ∈ st'.anchors)
